@@ -72,7 +72,10 @@ func runC03(c *core.Ctx) {
 }
 
 func ruleConstructors(c *core.Ctx, prims map[string]*primInfo) {
-	const rule = "C03.constructors"
+	ruleConstructorsAs(c, prims, "C03.constructors")
+}
+
+func ruleConstructorsAs(c *core.Ctx, prims map[string]*primInfo, rule string) {
 	rows := ctorTable(c)
 	seen := map[string]bool{}
 	for _, r := range rows {
